@@ -125,7 +125,12 @@ func TestC14Rapid(t *testing.T) {
 				gp = append(gp, int64(rapid.SampledFrom([]int{1, 3, 10}).Draw(rt, "gpower")))
 			}
 		}
+		valWorldSecp = rapid.IntRange(0, 3).Draw(rt, "secpKeys") == 0
+		if valWorldSecp {
+			c.Class("chain-admitting-secp256k1-consensus-keys")
+		}
 		w, err := newValWorld(nGen, maxVals, uint32(rapid.SampledFrom([]int{0, 2, 100}).Draw(rt, "retention")), gp...)
+		valWorldSecp = false
 		if err != nil {
 			rt.Fatalf("genesis: %v", err)
 		}
